@@ -69,7 +69,10 @@ func gsxStubLoad(e *ruleguard.Engine, ctx *ruleguard.LoadContext, filename strin
 
 //gsx:stub (*github.com/quasilyte/go-ruleguard/ruleguard.Engine).Run = gsxStubRun
 func gsxStubRun(e *ruleguard.Engine, ctx *ruleguard.RunContext, f *ast.File) error {
-	gsxEnv.runs++
+	if gsxEnv != nil {
+		gsxEnv.runs++
+	}
+	gsxRunSeen, gsxRunVersion = true, ctx.GoVersion
 	return nil
 }
 
